@@ -18,6 +18,8 @@ pub enum Lit {
     ByteStr,
     /// a non-literal expression such as `a::b` or `1 + 2`
     Expr(String),
+    /// an array expression of literals: `[1, "2", 3]`
+    Array(Vec<Lit>),
 }
 
 #[derive(Clone, Debug, PartialEq)]
@@ -94,6 +96,8 @@ pub struct Ranges {
     pub value: HashMap<usize, R>,
     /// contents of a list (between the delimiters)
     pub inner: HashMap<usize, R>,
+    /// elements of an array value: (item id, element index)
+    pub elem: HashMap<(usize, usize), R>,
 }
 
 pub fn render_lit(l: &Lit) -> String {
@@ -128,6 +132,7 @@ pub fn render_lit(l: &Lit) -> String {
         Lit::Bool(b) => b.to_string(),
         Lit::ByteStr => "b\"bytes\"".into(),
         Lit::Expr(e) => e.clone(),
+        Lit::Array(elems) => format!("[{}]", elems.iter().map(render_lit).collect::<Vec<_>>().join(", ")),
     }
 }
 
@@ -147,7 +152,20 @@ pub fn render_item(it: &Item, out: &mut String, ranges: &mut Ranges, spacing: u8
             ranges.name.insert(it.id, (lo, out.len()));
             out.push_str(if spacing % 2 == 0 { " = " } else { "=" });
             let vlo = out.len();
-            out.push_str(&render_lit(l));
+            if let Lit::Array(elems) = l {
+                out.push('[');
+                for (k, e) in elems.iter().enumerate() {
+                    if k > 0 {
+                        out.push_str(", ");
+                    }
+                    let elo = out.len();
+                    out.push_str(&render_lit(e));
+                    ranges.elem.insert((it.id, k), (elo, out.len()));
+                }
+                out.push(']');
+            } else {
+                out.push_str(&render_lit(l));
+            }
             ranges.value.insert(it.id, (vlo, out.len()));
         }
         Kind::List(items) => {
